@@ -405,6 +405,9 @@ def make_input(struct, rng, cplx, red, n, fname):
         a = xr.DataArray(arr((n, 3)), dims=("time", fname), coords={"time": t, fname: [0, 1, 2]}, name="u")
         b = xr.DataArray(arr((n, 2)), dims=("time", fname + "b"), coords={"time": t, fname + "b": [5, 6]}, name="v")
         return [a, b]
+    if struct == "list1":
+        # a list holding exactly one item: still a list (results come back as one-item lists)
+        return [xr.DataArray(arr((n, 4)), dims=("time", fname), coords={"time": t, fname: [0, 1, 2, 3]}, name="u")]
     if struct == "list12":
         # more than ten list items (positions with two digits), each with its own mean and feature labels
         return [xr.DataArray(arr((n, 2)) + 10.0 * j, dims=("time", fname), coords={"time": t, fname: [100 * j, 100 * j + 1]}, name="v%d" % j) for j in range(12)]
@@ -819,7 +822,7 @@ def run_case(ctx, case, paths, moments):
 ALL_CLASSES = ["EOF", "ComplexEOF", "HilbertEOF", "ExtendedEOF", "SparsePCA", "POP", "OPA", "CPCCA", "MCA", "CCA", "RDA",
                "ComplexCPCCA", "ComplexMCA", "HilbertMCA", "HilbertCPCCA"]
 ROTATABLE = ["EOF", "ComplexEOF", "HilbertEOF", "CPCCA", "MCA", "ComplexMCA", "HilbertMCA", "ComplexCPCCA", "HilbertCPCCA"]
-STRUCTS = ["da2", "da3aux", "miaux", "da3", "ds", "list", "mi", "nan", "name=dim", "list12"]
+STRUCTS = ["da2", "da3aux", "miaux", "da3", "ds", "list", "list1", "mi", "nan", "name=dim", "list12"]
 MOMENTS = ["fresh", "after-queries", "after-compute", "after-rotator-fit"]
 
 
